@@ -62,17 +62,18 @@ def gen_inputs(interp, shape, rng, n_samples, max_len=10, int_range=14, exhausti
     while produced < n_samples and tried < n_samples * 60:
         tried += 1
         vals = {}
-        L = rng.choice([0, 1, 2, 3, 5, 7, 8, 9, max_len, rng.randint(0, max_len)])
+        big = max_len * 4
+        L = rng.choice([0, 1, 2, 3, 5, 7, 8, 9, max_len, rng.randint(0, max_len), rng.randint(0, big), big])
         for name, d in names:
             if d[0] == 'int':
                 if name.endswith('.ml') or name.endswith('.pos'):
-                    vals[name] = rng.randint(0, max_len + 8)
+                    vals[name] = rng.choice([rng.randint(0, max_len + 8), rng.randint(0, max(L, 1))])
                 else:
                     vals[name] = rng.choice([rng.randint(-int_range, int_range), rng.randint(-3, 3), rng.randint(0, max_len)])
             elif d[0] == 'bool':
                 vals[name] = rng.random() < 0.5
             elif d[0] == 'view':
-                n = rng.choice([L, rng.randint(0, max_len)])
+                n = rng.choice([L, L, rng.randint(0, max_len)])
                 if name.endswith('.raw'):
                     n = 8 * rng.randint(0, max(1, (max_len + 7) // 8 + 1))
                 vals[name] = [rng.random() < 0.5 for _ in range(n)]
